@@ -40,7 +40,7 @@ ASM_STAT_KEYS = ["GQ", "SQ", "DP", "RCOUNT", "RCALLS", "MEC", "MECP", "GPM", "SP
 
 def plan(tier, seed):
     q = tier == "quick"
-    return [{"name": "s%02d" % i, "shard": i, "datasets": 2 if q else 10, "timeout": 7000} for i in range(16)]
+    return [{"name": "s%02d" % i, "shard": i, "datasets": 2 if q else 40, "timeout": 7000} for i in range(16)]
 
 
 def required(tier):
